@@ -18,14 +18,15 @@ RULE = ("documents from vt/gen/model_docs.py (profiles isd/style: regions with o
 ASSUMPTIONS = [
   "text timeline compared as the set of visible text tokens per probe time (region-agnostic) using the reference ISD on the pre-filter and "
   "post-filter documents; only for documents without display / visibility / opacity styling (specified, animated or initial)",
-  "merging clause: the filter erases the writing mode of every region, so regions are compared by timing and resulting displayAlign only: no "
-  "two retained regions may share (begin, end, displayAlign); a removed region must have a retained region with the same timing and its "
+  "merging clause: the filter erases the writing mode of every region, so regions are compared by timing, resulting displayAlign and the "
+  "region-level values of the styles the configuration preserves (textAlign / color / backgroundColor): no "
+  "two retained regions may share all of these; a removed region must have a retained region with the same timing and its "
   "references must point to such a region (merging regions that differ in writing mode is not forbidden by the statement)",
   "safe-area geometry accepted in % or in the equivalent rh/rw",
   "configured colour / background / alignment judged on the computed styles of the reference ISD of the filtered document",
 ]
 REQUIRED = ["filtered", "cfg:color", "cfg:bg_color", "cfg:preserve_text_align", "timeline:compared", "idempotence:compared",
-            "class:position-region", "class:no-body", "class:regions:many", "class:timed-region", "regions:merged"]
+            "class:position-region", "class:no-body", "class:regions:many", "class:timed-region", "regions:merged", "snap:align-preserved", "class:region-level-styles"]
 SHARD_TIMEOUT = {"quick": 900, "thorough": 7200}
 N = {"quick": 90, "thorough": 2500}
 ALLOWED = {"DisplayAlign", "Extent", "Origin", "Color", "BackgroundColor", "TextAlign"}
@@ -159,7 +160,10 @@ def check(ctx, adoc0, cfg, classes=()):
       ctx.violation("region-invented", f"{what}: region {r.id} did not exist before", payload)
       continue
     da = r.styles.get("DisplayAlign")
-    k = (src.begin or 0, src.end, da[2] if da else None)
+    # styles that the configuration preserves and that content inherits from its region are part of the "resulting alignment":
+    # regions that differ in them need not (and, for the alignment to be preserved, must not) be merged
+    kept = [p_ for p_, on in (("TextAlign", cfg.get("preserve_text_align")), ("Color", "color" not in cfg), ("BackgroundColor", "bg_color" not in cfg)) if on]
+    k = (src.begin or 0, src.end, da[2] if da else None, repr([r.styles.get(p_) for p_ in kept]))
     if k in key_post:
       ctx.violation("regions-not-merged", f"{what}: regions {key_post[k]} and {r.id} have equal timing and alignment {k[2]}", payload)
     key_post[k] = r.id
@@ -190,7 +194,8 @@ def check(ctx, adoc0, cfg, classes=()):
   bounds = refisd.boundaries(pre)
   times = sorted(set(bounds) | {b + Fraction(1, 7) for b in bounds} | {Fraction(0)})[:50]
   visible = False
-  if not hides(pre):
+  hiding = hides(pre)
+  if not hiding:
     for t in times:
       ctx.count("timeline:compared")
       ta, tb = tokens_at(pre, t), tokens_at(post, t)
@@ -205,6 +210,10 @@ def check(ctx, adoc0, cfg, classes=()):
         break
   else:
     ctx.count("timeline:skipped-hiding-styles")
+  # snapshot uids are traversal counters (regions first): removing a region shifts them, so map post -> pre through the content tree
+  pre_uid = {}
+  if pre.body is not None and post.body is not None:
+    pre_uid = {b.uid: a.uid for a, b in zip(pre.body.walk(), post.body.walk())}
   exp_color = color_of(cfg["color"]) if "color" in cfg else None
   exp_bg = color_of(cfg["bg_color"]) if "bg_color" in cfg else None
   done = False
@@ -216,13 +225,14 @@ def check(ctx, adoc0, cfg, classes=()):
       for r in rpre.regions:
         for n in r.walk():
           if n.kind == "P":
-            # judged only when the alignment stems from a value specified on content (p / div / body): an animated value is
-            # removed with the animation, and a value specified on a region does not survive the merging of regions
+            # judged only when the alignment stems from a specified value (on content or on the region): an animated value is
+            # removed with the animation
             o = n
             while o.sources.get("TextAlign") == "inherit" and getattr(o, "_parent", None) is not None:
               o = o._parent  # pylint: disable=protected-access
-            if o.kind != "Region" and o.sources.get("TextAlign") == "spec":
-              pre_align[n.src_uid] = n.styles["TextAlign"]
+            if o.sources.get("TextAlign") == "spec":
+              # one source paragraph may be shown in several regions (with different inherited alignments)
+              pre_align.setdefault(n.src_uid, []).append((r.id, n.styles["TextAlign"]))
     for r in ri.regions:
       for n in r.walk():
         if n.kind == "Span" and exp_color is not None and any(c.kind == "Text" for c in n.children):
@@ -242,9 +252,17 @@ def check(ctx, adoc0, cfg, classes=()):
             if ta_ != "center":
               ctx.violation("snapshot-align-not-centered", f"{what}: t={t}: p computes textAlign {ta_}", payload)
               done = True
-          elif n.src_uid in pre_align and pre_align[n.src_uid][1] and pre_align[n.src_uid][0][2] != ta_:
-            ctx.violation("snapshot-align-not-preserved", f"{what}: t={t}: p textAlign {pre_align[n.src_uid][0][2]} -> {ta_}", payload)
-            done = True
+          elif pre_uid.get(n.src_uid) in pre_align:
+            # the paragraph as it was shown in this region, or in a region that has been merged away
+            # (the latter only in documents without hiding styles, where a paragraph newly shown in a region can only come from a merge)
+            cands = [v for rid, v in pre_align[pre_uid[n.src_uid]] if rid == r.id]
+            if not cands and not hiding:
+              cands = [v for rid, v in pre_align[pre_uid[n.src_uid]] if rid not in post_regs]
+            if cands and all(v[1] for v in cands):
+              ctx.count("snap:align-preserved")
+              if ta_ not in {v[0][2] for v in cands}:
+                ctx.violation("snapshot-align-not-preserved", f"{what}: t={t}: p textAlign {sorted({v[0][2] for v in cands})} -> {ta_} (region {r.id})", payload)
+                done = True
         if done:
           break
       if done:
@@ -280,7 +298,19 @@ def run(ctx, params):
       strip_hiders(adoc0)
     if i % 11 == 5:
       adoc0.body = None
-    check(ctx, adoc0, gen_cfg(rng), classes)
+    cfg = gen_cfg(rng)
+    if i % 6 == 1 and len(adoc0.regions) >= 2:
+      # regions that are candidates for merging (same timing) but carry inheritable styles of their own, which the configuration keeps
+      ctx.count("class:region-level-styles")
+      for r in adoc0.regions:
+        r.begin = r.end = None
+        r.anims = [a for a in r.anims if a[0] not in ("TextAlign", "Color")]
+        r.styles["TextAlign"] = ("E", "TextAlignType", rng.choice(["start", "center", "end"]))
+        if rng.random() < 0.5:
+          r.styles["Color"] = ("C", rng.choice([(255, 0, 0, 255), (0, 255, 0, 255), (255, 255, 255, 255)]))
+      cfg["preserve_text_align"] = True
+      cfg.pop("color", None)
+    check(ctx, adoc0, cfg, classes)
 
 
 def strip_hiders(adoc):
